@@ -1,5 +1,6 @@
 import OxiModel.GeomProofs
 import OxiModel.ScanProofs
+import OxiModel.Interlace
 /-
   C18 — Adam7 geometry is exact for every image size (sizes and row lengths).
 -/
@@ -83,5 +84,86 @@ theorem iterator_consumes_raw_data_size (w h bpp : Nat) (il : Bool) (hw : 1 ≤ 
 
 /-- Non-vacuity / sanity: a 5x5 gray-8 interlaced image has 36 bytes of filtered data. -/
 example : rawDataSize 5 5 8 true = 36 ∧ Spec.dataSize 5 5 8 true true = 36 := by decide
+
+/-! ### placement: interlace / deinterlace use the specification's table -/
+
+/-- pixel column/row residue `(pm, r)` (mod 8) lies on pass `k` of the specification's table -/
+def onPass (k r pm : Nat) : Bool :=
+  let g := Spec.adam7.getD k ⟨0, 0, 1, 1⟩
+  decide (g.ys ≤ r ∧ (r - g.ys) % g.dy = 0 ∧ g.xs ≤ pm ∧ (pm - g.xs) % g.dx = 0)
+
+/-- **`interlace_image` sends every pixel to the pass the specification's table gives it**: for each of
+    the 64 residues of (row, column) modulo 8 the pass chosen by the code is on the table's lattice,
+    and it is the first such pass (the lattices of later passes overlap those of earlier ones only
+    through the order of the table). -/
+theorem passOf_is_spec : ∀ r < 8, ∀ pm < 8,
+    passOf r pm < 7 ∧ onPass (passOf r pm) r pm = true ∧ ∀ k < passOf r pm, onPass k r pm = false := by
+  decide
+
+/-- since all Adam7 steps divide 8, a pixel's pass depends only on its residues: `(x, y)` is on the
+    lattice of pass `k` iff `(x % 8, y % 8)` is -/
+theorem lattice_mod8 (k : Nat) (hk : k < 7) (x y : Nat) :
+    let g := Spec.adam7.getD k ⟨0, 0, 1, 1⟩
+    (g.ys ≤ y ∧ (y - g.ys) % g.dy = 0 ∧ g.xs ≤ x ∧ (x - g.xs) % g.dx = 0) ↔ onPass k (y % 8) (x % 8) = true := by
+  have h7 : k = 0 ∨ k = 1 ∨ k = 2 ∨ k = 3 ∨ k = 4 ∨ k = 5 ∨ k = 6 := by omega
+  rcases h7 with rfl | rfl | rfl | rfl | rfl | rfl | rfl <;>
+    simp [onPass, Spec.adam7] <;> omega
+
+/-- **`deinterlace_image` uses the table's constants** for every pass -/
+theorem interlacedConstants_is_spec : ∀ p, 1 ≤ p → p ≤ 7 →
+    interlacedConstants p = (Spec.adam7[p - 1]?).map fun g => ⟨g.xs, g.ys, g.dx, g.dy⟩ := by
+  intro p h1 h7
+  have : p = 1 ∨ p = 2 ∨ p = 3 ∨ p = 4 ∨ p = 5 ∨ p = 6 ∨ p = 7 := by omega
+  rcases this with rfl | rfl | rfl | rfl | rfl | rfl | rfl <;> rfl
+
+/-- pass `p` (1-based) has no pixel in a `w × h` image -/
+def passEmptyS (p w h : Nat) : Prop :=
+  let g := Spec.adam7.getD (p - 1) ⟨0, 0, 1, 1⟩
+  Spec.passCount w g.xs g.dx = 0 ∨ Spec.passCount h g.ys g.dy = 0
+
+instance (p w h : Nat) : Decidable (passEmptyS p w h) := by unfold passEmptyS; exact inferInstance
+
+theorem pe1 (w h : Nat) : passEmptyS 1 w h ↔ (w = 0 ∨ h = 0) := by
+  simp [passEmptyS, Spec.adam7, Spec.passCount, Nat.div_eq_zero_iff]; omega
+theorem pe2 (w h : Nat) : passEmptyS 2 w h ↔ (w ≤ 4 ∨ h = 0) := by
+  simp [passEmptyS, Spec.adam7, Spec.passCount, Nat.div_eq_zero_iff]; omega
+theorem pe3 (w h : Nat) : passEmptyS 3 w h ↔ (w = 0 ∨ h ≤ 4) := by
+  simp [passEmptyS, Spec.adam7, Spec.passCount, Nat.div_eq_zero_iff]; omega
+theorem pe4 (w h : Nat) : passEmptyS 4 w h ↔ (w ≤ 2 ∨ h = 0) := by
+  simp [passEmptyS, Spec.adam7, Spec.passCount, Nat.div_eq_zero_iff]; omega
+theorem pe5 (w h : Nat) : passEmptyS 5 w h ↔ (w = 0 ∨ h ≤ 2) := by
+  simp [passEmptyS, Spec.adam7, Spec.passCount, Nat.div_eq_zero_iff]; omega
+theorem pe6 (w h : Nat) : passEmptyS 6 w h ↔ (w ≤ 1 ∨ h = 0) := by
+  simp [passEmptyS, Spec.adam7, Spec.passCount, Nat.div_eq_zero_iff]; omega
+theorem pe7 (w h : Nat) : passEmptyS 7 w h ↔ (w = 0 ∨ h ≤ 1) := by
+  simp [passEmptyS, Spec.adam7, Spec.passCount, Nat.div_eq_zero_iff]; omega
+
+/-- **`increment_pass` moves to the next pass that is not empty** (and reports the end when there is
+    none), for every image size -/
+theorem incrementPass_is_spec (p w h : Nat) (hp1 : 1 ≤ p) (hp7 : p ≤ 7) (hw : 1 ≤ w) (hh : 1 ≤ h) :
+    match incrementPass p w h with
+    | some q => p < q ∧ q ≤ 7 ∧ ¬ passEmptyS q w h ∧ ∀ m, p < m → m < q → passEmptyS m w h
+    | none => ∀ m, p < m → m ≤ 7 → passEmptyS m w h := by
+  have hp : p = 1 ∨ p = 2 ∨ p = 3 ∨ p = 4 ∨ p = 5 ∨ p = 6 ∨ p = 7 := by omega
+  have hwc : w = 1 ∨ w = 2 ∨ w = 3 ∨ w = 4 ∨ 5 ≤ w := by omega
+  have hhc : h = 1 ∨ h = 2 ∨ h = 3 ∨ h = 4 ∨ 5 ≤ h := by omega
+  rcases hp with rfl | rfl | rfl | rfl | rfl | rfl | rfl <;>
+    rcases hwc with rfl | rfl | rfl | rfl | hw5 <;>
+    rcases hhc with rfl | rfl | rfl | rfl | hh5 <;>
+    (try (have n1 : ¬ w ≤ 4 := by omega)) <;> (try (have n2 : ¬ w ≤ 2 := by omega)) <;>
+    (try (have n3 : ¬ w = 1 := by omega)) <;> (try (have m1 : ¬ h ≤ 4 := by omega)) <;>
+    (try (have m2 : ¬ h ≤ 2 := by omega)) <;> (try (have m3 : ¬ h = 1 := by omega)) <;>
+    simp [incrementPass, *] <;>
+    first
+      | (intro m h1 h2
+         have hm : m = 2 ∨ m = 3 ∨ m = 4 ∨ m = 5 ∨ m = 6 ∨ m = 7 := by omega
+         rcases hm with rfl | rfl | rfl | rfl | rfl | rfl <;>
+           simp only [pe2, pe3, pe4, pe5, pe6, pe7] <;> omega)
+      | (refine ⟨?_, ?_⟩
+         · simp only [pe2, pe3, pe4, pe5, pe6, pe7]; omega
+         · intro m h1 h2
+           have hm : m = 2 ∨ m = 3 ∨ m = 4 ∨ m = 5 ∨ m = 6 ∨ m = 7 := by omega
+           rcases hm with rfl | rfl | rfl | rfl | rfl | rfl <;>
+             simp only [pe2, pe3, pe4, pe5, pe6, pe7] <;> omega)
 
 end OxiModel.C18
